@@ -125,7 +125,7 @@ pub fn run_history(tr: &mut Trace, c: &Conc, r: &mut Rng, t: i32, tx: i32, hist:
     let n = hist.len();
     // one distinct shape per call (so that a shape identifies the call that wrote it)
     let good = distinct_shapes(r, t, n.max(1), false);
-    let other = distinct_shapes(r, tx, n.max(1), false);
+    let other = distinct_shapes(r, tx, if hist.contains('x') { n.max(1) } else { 1 }, false);
     let built_good: Vec<Shape> = good.iter().map(|a| build(c, a)).collect();
     let built_other: Vec<Shape> = other.iter().map(|a| build(c, a)).collect();
     // the shape offered at call k (1-based position = call number)
@@ -304,6 +304,15 @@ pub fn run(a: &Args) {
             k += 1;
             let by_path = k % 5 == 0;
             run_history(&mut traces[i], &concs[i], &mut r, t, tx, &h, by_path, &tmp.0, k, &prop);
+        }
+    }
+    // more pairs than any pre-allocation cap (1 024): every pair must still come back, by path and in memory
+    let nlong = a.num("long", 1100) as usize;
+    if nlong > 0 && alpha.contains(&'o') {
+        for by_path in [true, false] {
+            k += 1;
+            let h: String = std::iter::repeat('o').take(nlong).collect();
+            run_history(&mut traces[k % chunks], &concs[k % chunks], &mut r, 11, 1, &h, by_path, &tmp.0, k, &prop);
         }
     }
     let mut files = vec![];
